@@ -6,7 +6,8 @@ typedef struct { int nthreads, strategy, chunk_shuffle, preempt_mean, window_pct
 void simgomp_begin(uint64_t, Cfg*); void simgomp_end(void*); int simgomp_error(char*, int);
 int main(int argc,char**argv){
   int nt=argc>1?atoi(argv[1]):4; int strat=argc>2?atoi(argv[2]):0;
-  Cfg c; memset(&c,0,sizeof c); c.nthreads=nt; c.strategy=strat; c.chunk_shuffle=1; c.window_pct=100;
+  int nested=argc>3?atoi(argv[3]):0;
+  Cfg c; memset(&c,0,sizeof c); c.nthreads=nt; c.strategy=strat; c.chunk_shuffle=1; c.window_pct=100; c.flags=((uint64_t)nested)<<8;
   simgomp_begin(123,&c);
   double acc[64]; memset(acc,0,sizeof acc); int secs[3]={0,0,0}; long tasks=0; unsigned long long usum=0;
   #pragma omp parallel sections
@@ -61,6 +62,23 @@ int main(int argc,char**argv){
       }
     }
   }
+  /* a region inside a region: one team of its own per outer thread when nesting is on */
+  long nst[128*8]; memset(nst,0,sizeof nst); long inner_sizes=0;
+  #pragma omp parallel
+  {
+    int ot=omp_get_thread_num();
+    #pragma omp parallel for schedule(dynamic,1)
+    for(int i=0;i<8;i++){ nst[ot*8+i]+=i+1+ot; }
+    #pragma omp parallel
+    {
+      #pragma omp barrier
+      #pragma omp atomic
+      inner_sizes+=1;
+    }
+  }
+  long nsum=0; for(int o=0;o<nt;o++) for(int i=0;i<8;i++) nsum+=nst[o*8+i];
+  long want=0; for(int o=0;o<nt;o++) for(int i=0;i<8;i++) want+=i+1+o;
+  if(nsum!=want||inner_sizes!=(long)nt*(nested>1?nested:1)){ printf("nested wrong: %ld vs %ld, inner threads %ld\n",nsum,want,inner_sizes); return 1; }
   long tls=0; for(int i=0;i<37;i++) tls+=tl[i];
   if(tls!=37*38/2||tl2!=342){ printf("taskloop wrong: %ld %ld\n",tls,tl2); return 1; }
   uint64_t st[32]; simgomp_end(st); char buf[256]; int e=simgomp_error(buf,256);
